@@ -320,9 +320,9 @@ def _subst(node, mapping):
 
 
 def _strip_doc(body):
-    if body and isinstance(body[0], ast.Expr) and isinstance(body[0].value, ast.Constant) and isinstance(body[0].value.value, str):
-        body = body[1:]
-    return [s for s in body if not isinstance(s, ast.Pass)] or [ast.Pass()]
+    # doc strings, attribute doc strings (bare string statements anywhere in the body) and `pass`
+    return [s for s in body if not isinstance(s, ast.Pass)
+            and not (isinstance(s, ast.Expr) and isinstance(s.value, ast.Constant) and isinstance(s.value.value, str))] or [ast.Pass()]
 
 
 # --------------------------------------------------------------------------------------------- negation / guards
